@@ -15,6 +15,8 @@ package cmap
 
 import (
 	"sync"
+
+	"github.com/dapr/kit/verifhook"
 )
 
 // Mutex is an interface that defines a thread-safe map with keys of type T associated to
@@ -59,6 +61,7 @@ func (a *mutex[T]) Lock(key T) {
 	mutex, ok := a.items[key]
 	a.lock.RUnlock()
 	if ok {
+		verifhook.Point("cmap.mutex.afterLookup", key, "Lock")
 		mutex.Lock()
 		return
 	}
@@ -70,6 +73,7 @@ func (a *mutex[T]) Lock(key T) {
 		a.items[key] = mutex
 	}
 	a.lock.Unlock()
+	verifhook.Point("cmap.mutex.afterLookup", key, "Lock")
 	mutex.Lock()
 }
 
@@ -77,6 +81,7 @@ func (a *mutex[T]) Unlock(key T) {
 	a.lock.RLock()
 	mutex, ok := a.items[key]
 	if ok {
+		verifhook.Point("cmap.mutex.afterLookup", key, "Unlock")
 		mutex.Unlock()
 	}
 	a.lock.RUnlock()
@@ -88,6 +93,7 @@ func (a *mutex[T]) RLock(key T) {
 	a.lock.RUnlock()
 
 	if ok {
+		verifhook.Point("cmap.mutex.afterLookup", key, "RLock")
 		mutex.RLock()
 		return
 	}
@@ -99,6 +105,7 @@ func (a *mutex[T]) RLock(key T) {
 		a.items[key] = mutex
 	}
 	a.lock.Unlock()
+	verifhook.Point("cmap.mutex.afterLookup", key, "RLock")
 	mutex.RLock()
 }
 
@@ -106,6 +113,7 @@ func (a *mutex[T]) RUnlock(key T) {
 	a.lock.RLock()
 	mutex, ok := a.items[key]
 	if ok {
+		verifhook.Point("cmap.mutex.afterLookup", key, "RUnlock")
 		mutex.RUnlock()
 	}
 	a.lock.RUnlock()
@@ -121,6 +129,7 @@ func (a *mutex[T]) DeleteUnlock(key T) {
 	a.lock.Lock()
 	mutex, ok := a.items[key]
 	if ok {
+		verifhook.Point("cmap.mutex.afterLookup", key, "DeleteUnlock")
 		mutex.Unlock()
 	}
 	delete(a.items, key)
@@ -131,6 +140,7 @@ func (a *mutex[T]) DeleteRUnlock(key T) {
 	a.lock.Lock()
 	mutex, ok := a.items[key]
 	if ok {
+		verifhook.Point("cmap.mutex.afterLookup", key, "DeleteRUnlock")
 		mutex.RUnlock()
 	}
 	delete(a.items, key)
